@@ -53,6 +53,8 @@ pub trait Adapter {
     fn proof_input(_name: &str, _pf: &Pf<Self>, _out: &mut Out) {}
     /// models that thread the squeezes of the transcript are given every squeeze event of every run
     fn wants_sq_events() -> bool { false }
+    /// C12: further serializable artefacts reachable from the keys (KZG10 Powers, the inner KZG10 verifier key)
+    fn extra_c12(_ck: &CK<Self>, _vk: &VK<Self>, _out: &mut Out) {}
     /// C19: the shape parameters a size formula depends on (vector lengths, option tags)
     /// field draws the committer / the prover take beyond the generic estimate (schemes that always blind)
     fn extra_commit_draws(_c: &Case) -> usize { 0 }
@@ -656,6 +658,7 @@ where
         ser_obs("pp", &pp, out);
         ser_obs("ck", &ck, out);
         ser_obs("vk", &vk, out);
+        A::extra_c12(&ck, &vk, out);
         for i in 0..n.min(2) {
             ser_obs(&format!("comm{}", i), comms[i].commitment(), out);
             ser_obs(&format!("state{}", i), &states[i], out);
